@@ -70,7 +70,7 @@ def run_wp(ck, names, ms, prefix=""):
         elif any(b[1] == "refuted" for b in bad):
             b0 = next(b for b in bad if b[1] == "refuted")
             ck.violation(b0[0], f"{name}:{b0[0]}", f"obligation {b0[0]} ({b0[2]}) refuted by the solver; no failing input found natively in the bounded domain",
-                         dict(function=c["target"], obligation=b0[0], clause=b0[2], solver_model=b0[3], source_sha=r.get("sha")),
+                         dict(function=c["target"], clause=b0[2], solver_model=b0[3], source_sha=r.get("sha")),
                          failing_input_found=False)
             out[name] = "violated"
         elif bad:
